@@ -161,7 +161,9 @@ class C06World(object):
                 bump(stats, 'F7.late_abort(step 6)')
             snapshot = copy.deepcopy(matrix) if dis is None else None
             n = max(r, c)
-            budget = 4000 * n ** 4 + 20000
+            # measured on the unchanged tree: at most about 30 n call events per solve (the loops
+            # themselves make no calls), so this is a 70x margin and still cuts a spin at once
+            budget = 200 * n * n + 2000
             try:
                 o, steps = seams.run_with_budget(lambda: core.outcome(solver.compute, matrix), budget)
             except seams.BudgetExceeded:
